@@ -151,6 +151,20 @@ func c07nRun(x *vmc.X, cfg vmc.Cfg) {
 			last[lhSelf] = now()
 			return true
 		}},
+		{"remoteGet(by X)", func() bool {
+			// the requester may itself be a provider of the key: it is listed like everybody else
+			b, _ := proto.Marshal(pb.NewMessage(pb.Message_GET_PROVIDERS, mhk, 0))
+			replies, _, reset, handled, _ := env.exchange(pX, frame(b))
+			if !handled || reset || len(replies) != 1 {
+				x.Failf("C07/node/get-not-answered", "%v: GET_PROVIDERS got %d replies (reset=%v)", hist, len(replies), reset)
+				return false
+			}
+			var ids []peer.ID
+			for _, pp := range replies[0].GetProviderPeers() {
+				ids = append(ids, peer.ID(pp.GetId()))
+			}
+			return check("remote GET_PROVIDERS asked by provider X", ids)
+		}},
 		{"remoteGet", func() bool {
 			b, _ := proto.Marshal(pb.NewMessage(pb.Message_GET_PROVIDERS, mhk, 0))
 			replies, _, reset, handled, _ := env.exchange(pZ, frame(b))
@@ -192,7 +206,7 @@ func c07nRun(x *vmc.X, cfg vmc.Cfg) {
 		}
 	}
 	// final queries, both ways
-	if !ops[5].run() || !ops[6].run() {
+	if !ops[5].run() || !ops[6].run() || !ops[7].run() {
 		return
 	}
 	var l2 []string
